@@ -365,7 +365,13 @@ class Sched:
     (parked_count, chosen_index, chosen_fid) per release.
     """
 
-    def __init__(self, choices=(), default="first", rng=None, max_passes=400_000):
+    def __init__(self, choices=(), default="first", rng=None, max_passes=400_000, burst=None):
+        # burst=(p, max_delay): with probability p a release is followed, `d` loop passes later (0 <= d <= max_delay,
+        # NOT waiting for quiescence), by the release of a second parked body: completions a few turns apart, which is
+        # what real bodies do and what exposes hand-over windows in permits and queues
+        self.burst = burst
+        self.pending: list[list] = []
+        self.bursts = 0
         self.parked: list[tuple[str, asyncio.Future]] = []
         self.choices = list(choices)
         self.default = default
@@ -417,6 +423,15 @@ class Sched:
                     raise Inconclusive("scheduler watchdog: too many loop passes")
                 if task.done():
                     break
+                if self.pending:
+                    for ent in list(self.pending):
+                        ent[0] -= 1
+                        if ent[0] <= 0:
+                            self.pending.remove(ent)
+                            if not ent[2].done():
+                                ent[2].set_result(None)
+                    idle = 0
+                    continue
                 if not self._quiescent(loop):
                     idle = 0
                     continue
@@ -434,6 +449,11 @@ class Sched:
                 self.trace.append((k, c, fid))
                 if not fut.done():
                     fut.set_result(None)
+                if self.burst and self.parked and self.rng is not None and self.rng.random() < self.burst[0]:
+                    c2 = self.rng.randrange(len(self.parked))
+                    fid2, fut2 = self.parked.pop(c2)
+                    self.pending.append([1 + self.rng.randint(0, self.burst[1]), fid2, fut2])
+                    self.bursts += 1
         except BaseException:
             if not task.done():
                 task.cancel()
